@@ -475,6 +475,62 @@ func c12(x *mon.Ctx) {
 		x.Require("returned-value-edited-by-caller", n, 0, n)
 	}
 
+	// ---- (b6) one verifier over months: the same platform's quote is verified again after its collateral has been RE-ISSUED (new
+	//      issue date, new nextUpdate, new CRLs) and the old edition has run out. Through one options value the later call is
+	//      judged by what the endpoint serves at that time — and the earlier instant again by the earlier edition.
+	{
+		n := 0
+		for wi := 0; wi < x.Pick(6, 60); wi++ {
+			r := x.Rand(fmt.Sprint("re-issued", wi))
+			w1 := world.Honest(r, world.HonestOpts{Shape: world.QuoteShape{AuthLen: 32}})
+			t1, t2 := world.Epoch, world.Epoch.Add(45*world.Day)
+			for _, d := range []*time.Time{&w1.Tcb.IssueDate, &w1.Qe.IssueDate} {
+				*d = t1.Add(-5 * world.Day)
+			}
+			w1.Tcb.NextUpdate, w1.Qe.NextUpdate = t1.Add(25*world.Day), t1.Add(25*world.Day)
+			w1.RootCRL = world.MkCRL(w1.PKI.Root, t1.Add(-world.Day), t1.Add(25*world.Day), nil)
+			w1.PckCRL = world.MkCRL(w1.PKI.Inter, t1.Add(-world.Day), t1.Add(25*world.Day), nil)
+			w1.Resign()
+			w2 := w1.Clone()
+			w2.Tcb.IssueDate, w2.Qe.IssueDate = t2.Add(-5*world.Day), t2.Add(-5*world.Day)
+			w2.Tcb.NextUpdate, w2.Qe.NextUpdate = t2.Add(25*world.Day), t2.Add(25*world.Day)
+			w2.RootCRL = world.MkCRL(w2.PKI.Root, t2.Add(-world.Day), t2.Add(25*world.Day), nil)
+			w2.PckCRL = world.MkCRL(w2.PKI.Inter, t2.Add(-world.Day), t2.Add(25*world.Day), nil)
+			w2.Resign()
+			for i := range w1.Times {
+				w1.Times[i], w2.Times[i] = t1, t2
+			}
+			for _, lvl := range []int{world.LColl, world.LCrl} {
+				c1, c2 := w1.Case(lvl, "collateral-re-issued-between-calls", fmt.Sprintf("w%d/first-edition/%s", wi, lvlName(lvl))), w2.Case(lvl, "collateral-re-issued-between-calls", fmt.Sprintf("w%d/second-edition/%s", wi, lvlName(lvl)))
+				// the old edition at the later instant has run out (control)
+				stale := *c1
+				stale.Times, stale.Param = c2.Times, fmt.Sprintf("w%d/first-edition-at-the-later-instant/%s", wi, lvlName(lvl))
+				f1, f2, fs := mon.RunVerify(c1), mon.RunVerify(c2), mon.RunVerify(&stale)
+				shared := &verify.Options{}
+				var hist []string
+				prob := ""
+				for step, c := range []*world.Case{c1, c2, c1, c2, &stale, c2} {
+					want := []bool{f1.Accepted, f2.Accepted, f1.Accepted, f2.Accepted, fs.Accepted, f2.Accepted}[step]
+					out := mon.RunVerifyShared(c, shared)
+					hist = append(hist, fmt.Sprintf("%s:%v", c.Param, out.Accepted))
+					if out.Panic != "" || out.Accepted != want {
+						prob = fmt.Sprintf("step %d through the re-used options value: accepted=%v (%s%s); a fresh options value gives accepted=%v; history %v", step, out.Accepted, out.Err, out.Panic, want, hist)
+						break
+					}
+				}
+				if !f1.Accepted || !f2.Accepted || fs.Accepted {
+					x.Broken(fmt.Sprintf("collateral-re-issued-between-calls: fresh verdicts %v %v %v (%s | %s)", f1.Accepted, f2.Accepted, fs.Accepted, f1.Err, f2.Err))
+				}
+				if prob != "" {
+					x.Violation("collateral-re-issued-between-calls", c1.Param, prob, "verify", c2)
+				}
+				x.Note("collateral-re-issued-between-calls", c1.Param, prob == "", false, true)
+				n++
+			}
+		}
+		x.Require("collateral-re-issued-between-calls", n, 0, n)
+	}
+
 	// ---- (c) histories through one shared Options value
 	nh := x.Pick(200, 5000)
 	x.Each(nh, func(i int) {
